@@ -1925,5 +1925,49 @@ pub fn c07_hyrax(ctx: &mut Ctx, n: usize) {
             ctx.rep.expect_fail(&id, "hyrax/missing-rng-answered", "commit without an RNG returned a commitment", format!("# scheme: hyrax\n# case {}\n", id));
         }
         ctx.rep.case(&format!("hyrax hiding nv={:?} rows={} rng-bytes={}", sizes.num_vars, dim, r1.bytes), Some(format!("hyrax/{:?}/{}", sizes.num_vars, i)));
+        // proofs: several polynomials opened by ONE `open` call — every proof must carry its own fresh
+        // nonce vector and blinders (first messages pairwise distinct, enough RNG consumed), be reproducible
+        // from the seed and differ under another seed
+        let k = 2 + i % 3;
+        let lps: Vec<_> = (0..k).map(|j| LabeledPolynomial::new(format!("q{}", j), S::rand_poly(&mut rng, &sizes, 1), None, None)).collect();
+        let mut rc = seed_rng.clone();
+        let (coms, sts) = match guarded(|| <S as Scheme>::PC::commit(&ck, &lps, Some(&mut rc))) { Ok(Ok(x)) => x, _ => continue };
+        let pt = S::rand_point(&mut rng, &sizes);
+        let open_with = |r: &mut dyn ark_std::rand::RngCore| {
+            let mut sp = fresh_sponge();
+            guarded(|| <S as Scheme>::PC::open(&ck, &lps, &coms, &pt, &mut sp, &sts, Some(r)))
+        };
+        let mut ro = CountRng::new(seed_rng.clone());
+        let pr = match open_with(&mut ro) { Ok(Ok(p)) => p, other => {
+            ctx.rep.expect_fail(&id, "hyrax/honest-open-refused", &format!("open refused: {:?}", other.map(|r| r.map(|_| ()).map_err(|e| err_kind(&e)))), format!("# scheme: hyrax\n# case {}\n# seed {}\n", id, ctx.seed));
+            continue; } };
+        let need = k * (dim + 3) * 31;
+        if (ro.bytes as usize) < need {
+            ctx.rep.expect_fail(&id, "hyrax/open-too-little-randomness",
+                &format!("open of {} polynomials drew {} bytes from the caller's RNG, fewer than {} field elements need", k, ro.bytes, k * (dim + 3)),
+                format!("# scheme: hyrax\n# case {}\n# seed {}\n# nv {:?} k {}\n", id, ctx.seed, sizes.num_vars, k));
+        }
+        for a in 0..pr.len() {
+            for b in (a + 1)..pr.len() {
+                if pr[a].com_d == pr[b].com_d || pr[a].com_b == pr[b].com_b || pr[a].com_eval == pr[b].com_eval {
+                    ctx.rep.expect_fail(&id, "hyrax/proofs-share-nonce",
+                        &format!("proofs {} and {} of one open() call share a first-message commitment (nonce reuse)", a, b),
+                        format!("# scheme: hyrax\n# case {}\n# seed {}\n# nv {:?} k {}\n", id, ctx.seed, sizes.num_vars, k));
+                }
+            }
+        }
+        let mut ro2 = seed_rng.clone();
+        let pr_same = open_with(&mut ro2);
+        let mut ro3 = rng_for(ctx.seed ^ 0x99, "C07/hyrax/open-other", i as u64);
+        let pr_other = open_with(&mut ro3);
+        if let (Ok(Ok(ps)), Ok(Ok(po))) = (pr_same, pr_other) {
+            if ser(&ps) != ser(&pr) {
+                ctx.rep.expect_fail(&id, "hyrax/open-same-seed-differs", "same RNG seed gave different proofs", format!("# scheme: hyrax\n# case {}\n# seed {}\n", id, ctx.seed));
+            }
+            if (0..pr.len()).any(|a| po[a].com_d == pr[a].com_d || po[a].z == pr[a].z) {
+                ctx.rep.expect_fail(&id, "hyrax/open-other-seed-equal", "independent RNG streams gave the same proof components", format!("# scheme: hyrax\n# case {}\n# seed {}\n", id, ctx.seed));
+            }
+        }
+        ctx.rep.case(&format!("hyrax hiding open k={} nv={:?} rng-bytes={}", k, sizes.num_vars, ro.bytes), Some(format!("hyrax-open/{:?}/{}", sizes.num_vars, k)));
     }
 }
